@@ -18,7 +18,7 @@ CLAIMS = {
             "the scheduler models (all five load-balancing classes) are tied to the real classes by a per-run differential check. Partial: worksteal and the loadscope family at whole-system level, and the "
             "publication of the reports, are validated by the simulation monitors, not proved",
             "contract refinement + multiset ledger invariant; whole-system ledger invariant preserved by every step kind + induction over reachability (Lean 4) ; differential correspondence of the scheduler models; step-by-step replay of simulated runs by the Lean system model with the invariants (incl. the ledger) evaluated after every step"),
-    "C03": ("Lean theorems: remove_node returns the head of the dead node's book as the crash item and the tail to the pool (load, worksteal); "
+    "C03": ("Lean theorems: remove_node returns the head of the dead node's book as the crash item and the tail to the pool (load, worksteal); loadscope family: the crash item is the first not completed test of the dead worker's assigned work, the 'unable to identify crashitem' branch is unreachable (C03_loadscope_crash_item); "
             "with any number of crashes every index is outstanding, completed or crash-reported exactly once. WHOLE SYSTEM, ALL SIX MODES (C03_sys_one_crash_report_per_worker_all_modes): after any execution at most one crash report "
             "per worker, under the dead worker's own id, published only by the handler of its death notice. Whole system, --dist load (controller + workers + channels, every "
             "interleaving, any number of earlier crashes/replacements/re-queues): the book of a live worker is completions in flight ++ the test it executes ++ what it holds, and when "
@@ -128,7 +128,7 @@ CLAIMS = {
             "(C06_same_group_same_unit, C06_unit_in_collection_order); _assign_work_unit moves the head unit to ONE worker whole and its single runtests carries exactly the unit's not yet "
             "completed tests in order (C06_assign_sends_whole_unit); homogeneity of units is an invariant of every scheduler call incl. re-queueing after a crash (step_hom) and of every "
             "execution of the whole system in the three modes (C06_sys_units_hold_one_group); a group key is in ONE place at a time - queued, or in exactly one worker's assigned work - through every "
-            "scheduler call and every execution of the whole system (step_di, C06_sys_group_in_one_place). Partial: contiguity on the worker (FIFO by C05 + one command per unit) is "
+            "scheduler call and every execution of the whole system (step_di, C06_sys_group_in_one_place); after a crash exactly the dead worker's units with work left go back to the queue, as units, the crash item marked done (C06_after_crash_requeue). Partial: contiguity on the worker (FIFO by C05 + one command per unit) is "
             "validated by the scheduler correspondence and the whole-system monitor, not proved as one theorem",
             "string lemmas by induction (split/rsplit/rfind); association-list invariants by induction over scheduler calls lifted over every step of the composed system (Lean 4) ; differential correspondence of the three _split_scope functions and of the '@group' tagging; scheduler correspondence; whole-system simulation with group monitors"),
     "C14": ("Lean theorems for every warning and every capability profile of the controller (which classes it can import, what their constructors do): receiving never raises; an "
